@@ -69,9 +69,10 @@ let show_written (pre : state) (post : state) : string list =
   | w :: prev, old when List.length (w :: prev) = List.length old + 1 ->
     let inc = match prev with [] -> "1" | p :: _ -> if int_of_z w.w_id > int_of_z p.w_id then "1" else "0" in
     let m4 = ((int_of_z w.w_id) mod 4 + 4) mod 4 in
+    let b4 = match prev with [] -> "0" | p :: _ -> if int_of_z w.w_id = int_of_z p.w_id + 4 then "1" else "0" in
     (match w.w_kind with
-     | WReq _ -> [Printf.sprintf "W:req:%d:%d:%s" (int_of_z w.w_seq) m4 inc]
-     | WAck sid -> [Printf.sprintf "W:ack:%d:%d:%s:ack=%d" (int_of_z w.w_seq) m4 inc (int_of_z sid)])
+     | WReq _ -> [Printf.sprintf "W:req:%d:%d:%s:b%s" (int_of_z w.w_seq) m4 inc b4]
+     | WAck sid -> [Printf.sprintf "W:ack:%d:%d:%s:b%s:ack=%d" (int_of_z w.w_seq) m4 inc b4 (int_of_z sid)])
   | _ -> []
 
 let project (pre : state) (l : label) (post : state) : string =
@@ -116,6 +117,17 @@ let replay () =
   iter_lines (fun l ->
     match split_tab l with
     | "B" :: _ -> st := Some init
+    | "A" :: idx :: n :: lbl :: _ when String.length lbl > 6 && String.sub lbl 0 6 = "probe " ->
+      (* a sender released from "prelock" while another one holds the send lock: the model refuses the step *)
+      (match !st with
+       | None -> Printf.printf "M\t%s\t%s\tREJECTED-EARLIER\n" idx n
+       | Some s ->
+         let a = String.sub lbl 6 (String.length lbl - 6) in
+         let lab = if a = "rx" then LStep (ARx, Z0)
+           else LStep (ACaller (nat_of_int (int_of_string (String.sub a 1 (String.length a - 1)))), Z0) in
+         (match step s lab with
+          | None -> Printf.printf "M\t%s\t%s\tblocked\n" idx n
+          | Some _ -> Printf.printf "M\t%s\t%s\tREJECT:model-lets-it-pass\n" idx n; st := None))
     | "A" :: idx :: n :: lbl :: _ ->
       (match !st with
        | None -> Printf.printf "M\t%s\t%s\tREJECTED-EARLIER\n" idx n
